@@ -82,10 +82,45 @@ def run_sequence(m, task):
     return dict(runs=out, est_nonzero=est_nonzero)
 
 
+def long_transparent_run(m, task):
+    """A data-free feedback run over more rows than the integrator's default buffer (10 000), in batches: the trajectory must still
+    be bit-identical to ONE integrate() call (the capacity boundary is crossed by a batch in the filter, by nothing in the oracle)."""
+    filters, strapdown = m["filters"], m["strapdown"]
+    rng = np.random.RandomState(task["seed"] % (2 ** 31))
+    n = int(strapdown.Integrator.INITIAL_SIZE) + 350
+    pva = filt.make_pva(m, 0.0, rng, 0.0 if task["alt"] else 2.0)
+    incs = filt.make_increments(m, 0.0, np.arange(1, n + 1) * 0.01, rng)
+    gm, am = filt.make_models(m, task["models"], rng)
+    try:
+        res = filters.run_feedback_filter(pva, 1.0, 0.1, 0.1, 1.0, incs, gm, am, task["form"], time_step=task["step"], with_altitude=task["alt"])
+    except Exception as e:
+        return "raised %s: %s" % (type(e).__name__, str(e)[:150])
+    plain = strapdown.Integrator(pva, task["alt"])
+    plain.integrate(incs)
+    a, b = plain.trajectory, res.trajectory
+    if a.shape != b.shape or not (np.asarray(a.index) == np.asarray(b.index)).all():
+        return "trajectory has %s rows, plain integration %s" % (b.shape, a.shape)
+    diff = np.nonzero((a.values.view(np.int64) != b.values.view(np.int64)).any(axis=1))[0]
+    if len(diff):
+        return "%d rows differ bitwise from plain integration, first at row %d (max |d| = %.3g)" % (len(diff), int(diff[0]), float(np.nanmax(np.abs(a.values - b.values))))
+    return None
+
+
 def check(rep, pid, tier, seed):
     # ---- clause 1
     check_filters.check(rep, "C12", tier, seed)
     rule1 = rep.rule
+    ltasks = [dict(seed=seed * 29 + k, alt=bool(k % 2), models=["default", "asym", "full", "bias"][k % 4], form=[None, []][k % 2],
+                   step=[1.0, 0.37, 5.0, 0.5][k % 4]) for k in range(2 if tier == "quick" else 8)]
+    for k, status, out in pool.run_tasks(long_transparent_run, ltasks, init=filt.init_worker, task_timeout=1200):
+        rep.traces += 1
+        rep.evaluations += 1
+        rep.nontrivial.add("long%d" % k)
+        if status != "done":
+            rep.machinery("long transparent run %s: %s" % (status, str(out)[:300]))
+        elif out:
+            rep.violation("C12 transparency over the integrator's default capacity (with_altitude=%s, models=%s, time_step=%s): %s"
+                          % (ltasks[k]["alt"], ltasks[k]["models"], ltasks[k]["step"], out), dict(kind="long", task=ltasks[k]), key="long")
     # ---- clause 3
     consts = dict(Kinds={"fb", "ff", "fb0"}, Datasets={1, 2}, Models={1, 2}, MaxRuns=4 if tier == "quick" else 5, Resets=True)
     r = tlc.run_tlc("FilterRuns", dict(spec="Spec", constants=consts, invariants=["RunsIndependent", "LeavesEstimates", "TransparentRerun"]), workers=8, coverage=True)
@@ -155,6 +190,13 @@ def check(rep, pid, tier, seed):
 
 
 def replay(rep, pid, case):
+    if case.get("kind") == "long":
+        m = filt.init_worker()
+        out = long_transparent_run(m, case["task"])
+        rep.traces += 1
+        if out:
+            rep.violation("C12 transparency over the integrator's default capacity: %s" % out, case)
+        return
     if case.get("kind") == "runs":
         m = filt.init_worker()
         t = case["task"]
